@@ -9,7 +9,7 @@ from ..core import CaseStage, fresh_dir, h8, seed_slice
 from . import c07
 
 LEVEL = "exploration"
-RULE = ("full product vendor x class over 9x10 names (defaults of both SoCs, empty, one character, non-ASCII, 300 "
+RULE = ("full product vendor x class over 11x15 names (incl. names that look like Kconfig literals: digits, 0x.., y) (defaults of both SoCs, empty, one character, non-ASCII, 300 "
         "characters, names differing only in case / trailing dot): (1) manifest vendor/class parameters and component ID "
         "from RFC4122_UUID name and namespace+name descriptions (library and YAML/JSON files), bytes located with the "
         "verifier's reader; (2) MPI record bytes 16..47; (3) image boot with a build configuration giving the pair to each "
@@ -22,8 +22,8 @@ ASSUMPTIONS = ["svmc/refuuid.py (hashlib.sha1)", "svmc/refhex.py, svmc/refcbor.p
 BOUNDS = {"quick": "90 name pairs x 3 derivation sites; 64 configurations x 4 probe envelopes; 6 malformed configurations",
           "thorough": "same (complete)"}
 
-VENDORS = ["nordicsemi.com", "", "a", "zażółć.example", "xY" * 150, "Nordicsemi.com", "nordicsemi.com.", "acme.example", "nordicsemi.com "]
-CLASSES = ["nRF54H20_sample_root", "nRF9280_sample_app", "", "b", "klasa_ąę€", "yZ" * 150, "nrf54h20_sample_root", "nRF54H20_sample_root.", "cls ", " cls"]
+VENDORS = ["nordicsemi.com", "", "a", "zażółć.example", "xY" * 150, "Nordicsemi.com", "nordicsemi.com.", "acme.example", "nordicsemi.com ", "2024", "y"]
+CLASSES = ["nRF54H20_sample_root", "nRF9280_sample_app", "", "b", "klasa_ąę€", "yZ" * 150, "nrf54h20_sample_root", "nRF54H20_sample_root.", "cls ", " cls", "0", "0x54", "y", "n", "007"]
 CONFIGURABLE = ["APP_LOCAL_2", "APP_LOCAL_3", "RAD_LOCAL_2"]
 POOL = [("acme.example", "cls_a"), ("acme.example", "cls_b"), ("nordicsemi.com", "nRF54H20_sample_app"), ("Acme.example", "cls_a")]
 
